@@ -216,6 +216,20 @@ def check(ctx):
                "the stored value is always the result of self._reconcile_column(value)" if ok else
                "a value reaches storage without passing _reconcile_column: columns of any length / type can be stored",
                clause="any other length mismatch is rejected instead of being stored")
+    # the column is stored under the very name that was asked for
+    kp = seti.params[1] if len(seti.params) > 1 else "key"
+    for f, c in stores:
+        k = c.args[0] if c.args else None
+        kdefs = defs_reaching(seti, k.id, c) if isinstance(k, ast.Name) else None
+        ok = isinstance(k, ast.Name) and k.id == kp and all(d.kind == "param" for d in kdefs)
+        how = norm(k) if k is not None else "?"
+        if kdefs and not ok:
+            how = "; ".join(sorted({norm(d.node.ast) if d.node is not None and d.node.ast is not None else d.kind for d in kdefs}))[:120]
+        ctx.ob("STO-2", seti, f"stored under {norm(k) if k is not None else '?'}", c, ok,
+               f"the name is the {kp!r} argument itself" if ok else
+               f"the name reaching storage is not the {kp!r} argument as given ({how}): the column lands under a rewritten name, and two "
+               f"requested names that are rewritten to the same one collapse into one column",
+               clause="column names are exactly the names assigned, in a stable order")
     rec = repo.fn(f"{DF}._reconcile_column")
     p0 = rec.params[1]
     for r in [n for n in body_nodes(rec.node) if isinstance(n, ast.Return)]:
